@@ -22,7 +22,7 @@ The public entry point in front of `estimate` (`gromov_hausdorff`, `make_distanc
 cast) is re-translated too (py2lean_ghentry.py, key "ghentry", Generated/SrcGHEntry.lean) and, composed with the translated
 `estimate`, proved equal to the composed model `MGHPublic.publicGH` (Lemmas/SrcGHEntryPublic.lean).
 """
-import itertools, math, warnings
+import itertools, math, random, warnings
 import numpy as np
 from .. import common
 from ..common import enc, ask, call
@@ -39,7 +39,9 @@ RULE = ("pairs of connected simple graphs from one PRNG: paths, cycles, stars, c
         "(identity/reversed/random permutations, first image 0 / last / random); [T] streams on the public entry point against an exact "
         "2*mGH: 320 / 3500 pairs of <= 6 vertices (exhaustive), 260 / 2600 pairs dense-X (clique, bipartite, star, lollipop, dense G(n,p)) "
         "against thin-Y (path, cycle, tree, grid) with |X| >= |Y|, 3..9 vertices, natural and random labellings, both argument orders "
-        "(the Y->X half of the upper bound decides), 140 / 1500 pairs of 5..12 vertices (constraint search), 2500 / 25000 isomorphic "
+        "(the Y->X half of the upper bound decides; every public call passes each graph in one of 63 forms fixed by the recorded seed: "
+        "symmetric / upper / lower adjacency x CSR or dense C-contiguous / transposed / Fortran-ordered / fancy-indexed / strided / "
+        "read-only x int / bool / float), 140 / 1500 pairs of 5..12 vertices (constraint search), 2500 / 25000 isomorphic "
         "pairs of 10..15 vertices (2*mGH = 0); non-trivial = both graphs have >= 3 "
         "vertices and are not both cliques; distinct by digest of (op, matrices, order, draws)")
 ASSUMPTIONS = [
@@ -349,12 +351,44 @@ def half_integral(x):
     return x >= 0 and math.isfinite(x) and float(2 * x).is_integer()
 
 
+N_FORMS = 63
+
+
 def as_form(A, k):
-    """adjacency `A` (symmetric 0/1) as: 0 symmetric dense, 1 upper triangle only, 2 lower triangle only, 3-5 the same as CSR"""
+    """adjacency `A` (symmetric 0/1) in form `k` of N_FORMS = 3 x 7 x 3, the same labelled graph every time:
+    k % 3         0 symmetric, 1 upper triangle only, 2 lower triangle only;
+    (k // 3) % 7  0 dense C-contiguous, 1 CSR, and dense arrays in another memory layout: 2 the transposed view of the transposed
+                  entries (`.T` of the lower / upper / symmetric matrix), 3 Fortran order, 4 the result of a fancy-indexed relabelling
+                  `B[q][:, q]`, 5 the strided view `big[::2, ::2]` (other cells 1), 6 read-only (/repo fc69e2e: before it layouts 2-5
+                  made scipy's Floyd-Warshall fail and gromov_hausdorff raise ValueError);
+    (k // 21) % 3 dtype int, bool, float"""
     import scipy.sparse as sps
     M = np.array(A)
     M = M if k % 3 == 0 else (np.triu(M, 1) if k % 3 == 1 else np.tril(M, -1))
-    return sps.csr_matrix(M) if k >= 3 else M
+    M = np.ascontiguousarray(M.astype([int, bool, float][(k // 21) % 3]))
+    c, n = (k // 3) % 7, len(M)
+    if c == 1:
+        return sps.csr_matrix(M)
+    if c == 2:
+        F = np.ascontiguousarray(M.T).T
+    elif c == 3:
+        F = np.asfortranarray(M)
+    elif c == 4:
+        q = np.array(random.Random(n).sample(range(n), n), dtype=int)
+        inv = np.argsort(q)
+        F = np.ascontiguousarray(M[np.ix_(inv, inv)])[q][:, q]
+    elif c == 5:
+        big = np.ones((2 * n, 2 * n), dtype=M.dtype)
+        big[::2, ::2] = M
+        F = big[::2, ::2]
+    elif c == 6:
+        F = M.copy()
+        F.setflags(write=False)
+    else:
+        return M
+    if F.shape != M.shape or F.dtype != M.dtype or not np.array_equal(F, M) or (c in (2, 3, 4, 5) and n > 1 and F.flags.c_contiguous):
+        raise common.HarnessError("as_form %d: did not build the intended array" % k)
+    return F
 
 
 def bracket_on_real_code(A, B, order, np_seed, mgh2=None):
@@ -362,8 +396,9 @@ def bracket_on_real_code(A, B, order, np_seed, mgh2=None):
     g = G()
     with np.errstate(all="ignore"):
         # the same labelled graph in one of the forms the entry point documents (each edge stored once above or below the
-        # diagonal, or symmetrically; dense or CSR), chosen by the recorded seed so that a replay uses the same form
-        fa, fb = as_form(A, int(np_seed) % 6), as_form(B, (int(np_seed) // 6) % 6)
+        # diagonal, or symmetrically; CSR or dense - any memory layout, int / bool / float), chosen by the recorded seed so that a
+        # replay uses the same form
+        fa, fb = as_form(A, int(np_seed) % N_FORMS), as_form(B, (int(np_seed) // N_FORMS) % N_FORMS)
         np.random.seed(np_seed)
         st, v, _ = call(g.gromov_hausdorff, fa, fb, mapping_sample_size_order=np.array(order))
     if st == "err":
